@@ -413,6 +413,16 @@ pub fn gen(ctx: &Ctx) -> Vec<Value> {
             out.push(&mut rng, tensor(h, i, &[3], vec![json!({"set": "dim_names", "v": [s]})]));
         }
     }
+    // every code point of the escaping boundary of `JsonString::fmt` (all 32 C0 controls, U+0020, DEL and the
+    // C1 controls) alone and between plain letters, through both helpers: an escape arm dropped or shifted for
+    // any single one of them makes the metadata text differ from the model and unreadable for serde_json
+    for cp in (0u32..=0x20).chain(0x7f..=0xa0) {
+        let c = char::from_u32(cp).unwrap();
+        for (pat, h) in [(0, "fixed"), (1, "variable")] {
+            let s: String = if pat == 0 { c.to_string() } else { format!("a{c}b") };
+            out.push(&mut rng, tensor(h, cp as usize, &[2], vec![json!({"set": "dim_names", "v": [s]})]));
+        }
+    }
     // dim-name count mismatches, uniform-shape count mismatches
     for ndim in 0..=3usize {
         for len in 0..=4usize {
